@@ -1,7 +1,10 @@
 //!
 //! Attribute-related structs
 //!
+#[cfg(not(kani))]
 use std::collections::HashMap;
+#[cfg(kani)]
+use crate::verif_shim::HashMap;
 
 use bytes::{BufMut, Bytes, BytesMut};
 #[cfg(feature = "serde")]
